@@ -16,6 +16,11 @@ pub enum Ctor {
     Params,
     /// CompressorOxide::default()
     Default,
+    /// CompressorOxide::new(word) with a hand-composed miniz flag word: the word the zip-parameter
+    /// helper gives for (level, strategy, format), with TDEFL_COMPUTE_ADLER32 set or cleared and
+    /// TDEFL_NONDETERMINISTIC_PARSING_FLAG possibly added (both documented as not changing the
+    /// stream), selected by the low bits of `hand`
+    Hand,
 }
 
 #[derive(Clone, Copy, Debug, Serialize, Deserialize, PartialEq, Eq)]
@@ -25,6 +30,9 @@ pub struct Config {
     pub strategy: i32,
     pub zlib: bool,
     pub wbits: u8,
+    /// selector bits for Ctor::Hand
+    #[serde(default)]
+    pub hand: u8,
 }
 
 pub fn strategy_of(i: i32) -> CompressionStrategy {
@@ -47,7 +55,31 @@ impl Config {
             Ctor::FormatLevel => CompressorOxide::with_format_and_level(fmt, LEVELS[self.level.rem_euclid(6) as usize]),
             Ctor::Params => CompressorOxide::with_params(fmt, self.level.clamp(0, 255) as u8, strategy_of(self.strategy), self.wbits),
             Ctor::Default => CompressorOxide::default(),
+            Ctor::Hand => {
+                let mut f = create_comp_flags_from_zip_params(self.level, if self.zlib { 15 } else { -15 }, self.strategy);
+                if self.hand & 1 == 1 {
+                    f |= 0x2000;
+                } else {
+                    f &= !0x2000;
+                }
+                if self.hand & 2 == 2 {
+                    f |= 0x8000;
+                }
+                CompressorOxide::new(f)
+            }
         }
+    }
+    /// the same constructor asked for the raw format, then switched to zlib with
+    /// set_format_and_level before any data (the documented use of that setter)
+    pub fn make_born_raw_then_zlib(&self) -> CompressorOxide {
+        let mut raw = *self;
+        raw.zlib = false;
+        // the setter refuses (silently) when the new level needs a larger window than the one the
+        // compressor was created with; keep that out of this variant
+        raw.wbits = 15;
+        let mut c = if raw.ctor == Ctor::Default { CompressorOxide::new(create_comp_flags_from_zip_params(self.level, -15, self.strategy)) } else { raw.make() };
+        c.set_format_and_level(DataFormat::Zlib, self.level.clamp(0, 10) as u8);
+        c
     }
     pub fn is_zlib(&self) -> bool {
         match self.ctor {
@@ -59,7 +91,7 @@ impl Config {
     /// before any window-bits remapping
     pub fn requested(&self) -> (i32, i32) {
         match self.ctor {
-            Ctor::Flags => (if self.level < 0 { 6 } else { self.level.min(10) }, if (0..=4).contains(&self.strategy) { self.strategy } else { 0 }),
+            Ctor::Flags | Ctor::Hand => (if self.level < 0 { 6 } else { self.level.min(10) }, if (0..=4).contains(&self.strategy) { self.strategy } else { 0 }),
             Ctor::FormatLevel => {
                 let l = LEVELS[self.level.rem_euclid(6) as usize] as i32;
                 (if l < 0 { 6 } else { l }, 0)
@@ -71,11 +103,11 @@ impl Config {
 }
 
 pub fn config() -> BoxedStrategy<Config> {
-    let ctor = prop_oneof![4 => Just(Ctor::Flags), 1 => Just(Ctor::FormatLevel), 3 => Just(Ctor::Params), 1 => Just(Ctor::Default)];
+    let ctor = prop_oneof![4 => Just(Ctor::Flags), 1 => Just(Ctor::FormatLevel), 3 => Just(Ctor::Params), 1 => Just(Ctor::Default), 1 => Just(Ctor::Hand)];
     let level = prop_oneof![6 => 0i32..=10, 1 => -1i32..=12];
     let strategy = prop_oneof![4 => Just(0i32), 4 => 1i32..=4, 1 => -1i32..=5];
     let wbits = prop_oneof![3 => Just(15u8), 3 => 8u8..=15, 1 => 0u8..=16];
-    (ctor, level, strategy, any::<bool>(), wbits).prop_map(|(ctor, level, strategy, zlib, wbits)| Config { ctor, level, strategy, zlib, wbits }).boxed()
+    (ctor, level, strategy, any::<bool>(), wbits, 0u8..=3).prop_map(|(ctor, level, strategy, zlib, wbits, hand)| Config { ctor, level, strategy, zlib, wbits, hand }).boxed()
 }
 
 /// Only window_bits = 15 (for checks where window honesty is someone else's business)
